@@ -278,14 +278,19 @@ Section Pipeline.
     Ok (mkRes n4 (r_pnames old) (r_pnss old) (r_pkinds old) (r_prefixes old) (r_suffixes old)
               (r_needs_hash old && r_needs_hash r)).
 
-  (* Resource.MergeDataMapFrom / MergeBinaryDataMapFrom: entries of r win *)
+  (* Resource.MergeDataMapFrom / MergeBinaryDataMapFrom: entries of r win; a key r defines in the other map is dropped
+     from the old object's map (a key lives in only one of data / binaryData) *)
   Definition merge_data_from (r old : resource) : res resource :=
     do n1 <- set_top_map "data"
-               (Generators.dict_override (node_pairs (map_field_value "data" (r_node old)))
-                                         (node_pairs (map_field_value "data" (r_node r)))) (r_node r);
+               (Generators.dict_override
+                  (Generators.dict_without (node_pairs (map_field_value "data" (r_node old)))
+                                           (node_pairs (map_field_value "binaryData" (r_node r))))
+                  (node_pairs (map_field_value "data" (r_node r)))) (r_node r);
     do n2 <- set_top_map "binaryData"
-               (Generators.dict_override (node_pairs (map_field_value "binaryData" (r_node old)))
-                                         (node_pairs (map_field_value "binaryData" (r_node r)))) n1;
+               (Generators.dict_override
+                  (Generators.dict_without (node_pairs (map_field_value "binaryData" (r_node old)))
+                                           (node_pairs (map_field_value "data" n1)))
+                  (node_pairs (map_field_value "binaryData" (r_node r)))) n1;
     Ok (with_node r n2).
 
   (* resWrangler.Replace: the unique resource with r's current id *)
